@@ -34,6 +34,7 @@ def reset_globals():
 
 
 _PRISTINE = {}
+_CLASS_NAMES = {}
 
 
 _CLASSES = []
@@ -54,6 +55,7 @@ def _library_classes():
 
 _MODULE_PRISTINE = {}
 _MEMO_ATTRS = None
+_SCALARS = (type(None), bool, int, float, str, bytes)
 
 
 def memo_attrs():
@@ -142,6 +144,14 @@ def new_item():
         for name, val in list(vars(cls).items()):
             if name.startswith("__") and name.endswith("__"):
                 continue
+            if isinstance(val, _SCALARS) and name != "NEIGHBOR_CACHING":
+                # a class-level flag / counter / marker (None, bool, int, str, ...): back to its first-seen value
+                key = (cls, name)
+                if key not in _PRISTINE:
+                    _PRISTINE[key] = val
+                elif val is not _PRISTINE[key] and val != _PRISTINE[key] or type(val) is not type(_PRISTINE[key]):
+                    setattr(cls, name, _PRISTINE[key])
+                continue
             if isinstance(val, (dict, list, set)):
                 key = (cls, name)
                 if key not in _PRISTINE:
@@ -151,6 +161,16 @@ def new_item():
                     # as it is now (the first call happens before any world is built)
                     _PRISTINE[key] = type(val)() if (cls is Vertex and isinstance(val, dict)) else _copy.copy(val)
                 _restore(val, _PRISTINE[key])
+    for cls in _library_classes():
+        if cls.__module__.endswith(".singleton"):
+            continue
+        seen = _CLASS_NAMES.setdefault(cls, set(vars(cls)))
+        for name in list(vars(cls)):
+            if name not in seen and not (name.startswith("__") and name.endswith("__")):
+                try:
+                    delattr(cls, name)        # an attribute some earlier execution planted on the class
+                except Exception:  # noqa: BLE001
+                    pass
     for mod, gname, val in _library_module_globals():
         key = (mod.__name__, gname)
         if key not in _MODULE_PRISTINE:
@@ -224,6 +244,8 @@ def class_level_state():
                 continue          # uid-keyed statistics table(s): represented by the 'registered' bit
             if isinstance(val, (dict, list, set)):
                 out.append((cls.__name__, name, val))
+            elif isinstance(val, _SCALARS) and name != "NEIGHBOR_CACHING":
+                out.append((cls.__name__, name, val))      # flags / counters / markers are state as well
     return out
 
 
@@ -355,6 +377,10 @@ class Alphabet:
                     out.append(("new_bad", c, "v1"))
                     out.append(("new_bad", c, "v2"))
                     out.append(("new_bad", c, "attributes"))
+                    # junk whose truth value is False (a guard written `if end and ...` lets it through)
+                    out.append(("new_bad", c, "v2-zero"))
+                    out.append(("new_bad", c, "v1-zero"))
+                    out.append(("new_bad", c, "v2-empty-string"))
         if self.explicit:
             for i in range(nv):
                 for j in range(nv):
@@ -417,6 +443,12 @@ def apply_op(w, op):
                 cls("not a vertex", a)
             elif op[2] == "v2":
                 cls(a, 17)
+            elif op[2] == "v2-zero":
+                cls(a, 0)
+            elif op[2] == "v1-zero":
+                cls(0, a)
+            elif op[2] == "v2-empty-string":
+                cls(a, "")
             else:
                 cls(a, a, attributes=[("x", 1)])
             return ("ret", "no-exception")
